@@ -106,6 +106,17 @@ PROPS = {
         "technique": "Lean 4 proof (decision logic) + pattern-exhaustive adversarial correspondence",
         "assumptions": ["signature unforgeability"],
     },
+    "C12": {
+        "rule": "for the document-signer and the reader role: the conformant leaf/anchor pair, ~50 single deviations of the leaf (validity, every required extension removed / wrong / duplicated / undecodable / criticality, each prohibited extension, unknown critical and non-critical extensions, AKI variants, issuer name, country and state variants, signature by another key), "
+                "17 single deviations of the anchor, sampled (thorough: all) pairs of deviations, registries mixing purposes with 0-2 candidates incl. a deviating first candidate; each under the three rule sets; DER certificates are abstracted by the harness (x509-cert, p256, sha1 directly) and the model's verdict and error kinds are compared with the library's. Distinct by (case, rule set)",
+        "xlate_items": [],
+        "trusted_base": ["Model/X509.lean: hand model of validation/mod.rs + extensions/*.rs + names.rs + validity.rs over an abstract certificate", "harness abstraction DER -> abstract certificate (c12.rs::abstract_cert): x509-cert decoding, SHA-1 key ids, ECDSA verification with p256",
+                         "error kinds are read from stable substrings of the library's error strings"],
+        "level_text": "Lean theorems, for every abstract certificate and registry: each rule set succeeds iff the leaf is within validity and satisfies its role's profile (declarative: no prohibited extension, no critical extension outside the required set, every required extension present and every occurrence carrying the role's value) and an anchor of the matching purpose anchors it (issuer name, AKI = SKI, signature, validity) - for issuer chains with the FIRST such anchor satisfying the IACA profile and matching country / state; anchors of the other purpose never contribute; any leaf deviation or missing anchor yields an error. The implementation-shaped loop is related to the quantified profile in Lemmas/X509.lean.",
+        "level_note": "Trusted: Lean kernel; the DER->abstract abstraction; 'some anchor' in the property vs 'first candidate' in the code for the IACA profile is stated exactly (C12_mdl_ok_iff) and exercised (first-candidate-deviating registries).",
+        "technique": "Lean 4 proof (loop-to-quantifier refinement over abstract certificates) + single/pair deviation correspondence",
+        "assumptions": ["DER decoding, SHA-1 and ECDSA are external (x509-cert, sha1, p256)"],
+    },
     "C13": {
         "rule": "every call sequence up to length 3 (quick) / 4 (thorough) over {handle_request(valid | not-CBOR plaintext | non-request plaintext | undecryptable | garbage), "
                 "prepare_response(0,1,2 documents), get_next_signature_payload, submit_next_signature(real | invented bytes), response_ready, retrieve_response} from a fresh established session, "
